@@ -1,9 +1,25 @@
-"""C17 - position / term arithmetic is consistent, including term-id wrap-around."""
+"""C17 - position / term arithmetic is consistent, including term-id wrap-around.
+
+Two ties between the theorems and the code:
+  K1  tools/props/c17_translate.py translates the bodies of the thirteen arithmetic functions from the Rust source of the
+      repository under check into Gallina (coq/Generated/GenDescriptor.v) on every run; Proofs/GenDescriptorProofs.v proves
+      them equal to the hand-written model on the whole typed domain and Props/C17.v states the property for them
+      (theorems C17_src_...).  A change of the source that changes the arithmetic breaks `make Props/C17.vo`.
+  K2  the differential run executes the hand-written model of Model/Descriptor.v and the compiled functions on the same
+      inputs and applies the oracle to what the implementation returned (this finds the concrete failing input).
+"""
+import os
+import re
+
 from vlib.term import z
 
 ID = 'C17'
 PROP_FILE = 'Props/C17.v'
+# what the differential run needs: deliberately NOT the generated file, so that a source change that breaks the
+# translation or the proofs about it still leaves model and oracle runnable and a failing input is searched for.
+# Proofs/GenDescriptorProofs.v and Generated/GenDescriptor.v are built through the Requires of PROP_FILE.
 EVAL_FILES = ['Oracle/C17Oracle.v']
+K1_PROOF_FILES = ['Base/MachineInt2.v', 'Generated/GenDescriptor.v', 'Proofs/SrcNorm.v', 'Proofs/GenDescriptorProofs.v']
 CRATES = ['c17']
 MODES = ['debug', 'release']
 IMPORTS = 'Require Import V.Base.MachineInt V.Model.Descriptor V.Oracle.C17Oracle.'
@@ -11,10 +27,28 @@ RULE = ('boundary-centred grid: initial term id in {MIN, MIN+1, -1, 0, 1, MAX-65
         '{0,1,2,3,65535,65536,2^31-2,2^31-1, random}, all 15 legal term lengths (bits 16..30), offsets {0,32,TL-32,TL,random aligned}; '
         'kinds: pos (5 descriptor functions), hdr (Header::position on a crafted frame), rot (rotate_log on crafted meta data), '
         'pub (real Publication::offer on an in-memory log handed over at (n0, off0)); debug and release builds. '
-        'A case is non-trivial when init + n leaves the i32 range (the term id has wrapped) or n >= 2^16; distinct = distinct argument tuples')
+        'A case is non-trivial when init + n leaves the i32 range (the term id has wrapped) or n >= 2^16; distinct = distinct argument tuples. '
+        'Before the cases run, the bodies of index_by_term, index_by_term_count, index_by_position, compute_position, '
+        'compute_term_begin_position, term_id, term_offset, next_partition_index, previous_partition_index, rotate_log '
+        '(log_buffer_descriptor.rs), align (bit_utils.rs), compute_max_message_length (frame_descriptor.rs) and Header::position '
+        '(header.rs) are translated from the working tree into Generated/GenDescriptor.v and the C17_src_... theorems are re-proved for them')
 ASSUMPTIONS = [
     'term lengths are powers of two 2^16..2^30 (bits 16..30); pub cases use 2^10..2^16 in-memory logs which LogBuffers::new accepts',
-    'rotate_log is modelled without interference from a concurrent rotator (interleavings belong to C02)',
+    'rotate_log is modelled (and translated) without interference from a concurrent rotator: the loop body runs once and the tail CAS '
+    'that compares with the value just read succeeds (interleavings belong to C02)',
+    'position_bits_to_shift is in 0..63 wherever the generated functions are equated with the hand-written model (outside, a Debug build '
+    'panics on the shift: theorem C17_src_shift_panics); the C17 statements themselves need 0..31',
+    'the getters Header::term_offset / frame_length / term_id and the fields initial_term_id / position_bits_to_shift are inputs of the '
+    'translated Header::position (their types are read from header.rs; that they read the frame is checked by the hdr cases of the differential run)',
+]
+TRUSTED = [
+    'K1 source translator tools/props/c17_translate.py (Python, ~950 lines): lexer, precedence parser and typed emitter for the arithmetic '
+    'subset of Rust described in its docstring; it fails closed (function left out, K1 reported broken, proofs about it fail) outside that subset. '
+    'Trusted to read the Rust operators, operand types, casts, literals and evaluation order as rustc does for that subset',
+    'coq/Base/MachineInt2.v: definitions of the shift (amount-checked), division / remainder (panic on 0 and MIN / -1) and i32 shift operators, '
+    'and the reading of & | ^ ! as Z.land Z.lor Z.lxor Z.lnot',
+    'the three meta-data accessors raw_tail_by_partition_index / cas_raw_tail / cas_active_term_count are compared token by token with their '
+    'expected text (read at, CAS at TERM_TAIL_COUNTER_OFFSET + index * 8; CAS at LOG_ACTIVE_TERM_COUNT_OFFSET), not translated',
 ]
 
 MAXI = 2**31 - 1
@@ -135,4 +169,23 @@ def shrink(c):
                 if c['kind'] in ('pos', 'hdr', 'pub') and i == 2:
                     continue
                 out.append({'kind': c['kind'], 'args': b})
+    return out
+
+
+def extra_checks(run):
+    """K1 bookkeeping: the proofs about the translated source are really part of what Props/C17.v rests on, and the
+    translator produced all thirteen functions (a function it did not understand is missing from the generated file)."""
+    from vlib import core
+    from props import c17_translate
+    out = []
+    missing = [f for f in K1_PROOF_FILES if f not in run.dep_files]
+    out.append((not missing, 'K1 proof files are dependencies of ' + PROP_FILE, 'missing: %s' % missing if missing else 'all required'))
+    try:
+        gen = open(os.path.join(core.COQ, 'Generated', 'GenDescriptor.v')).read()
+    except OSError as e:
+        gen = ''
+    names = re.findall(r'(?m)^Definition (src_\w+) \(m : mode\)', gen)
+    want = [c17_translate.COQ_NAME.get(n, 'src_' + n) for n, _, _ in c17_translate.FUNCTIONS]
+    lost = [n for n in want if n not in names]
+    out.append((not lost, 'K1 translated every function of the list', 'not translated: %s' % lost if lost else '%d functions' % len(names)))
     return out
